@@ -129,7 +129,11 @@ CLAIMS: dict[str, tuple[str, str, str, str]] = {
         "inline rules, tie `inlinel`) every link_open carries, as its first attribute, an href that is empty or URL-safe ASCII with no dangerous "
         "scheme — an inline destination is stored only after validateLink accepted its normalised form (a rejected one falls back to the "
         "reference form or stays text), a reference link stores what env holds, assumed acceptable (hypothesis RefsOK: the reference block rule "
-        "is outside the modelled sub-parser). PARTIAL: for image, the reference block rule and linkify 'every href/src the parser stores went "
+        "is outside the modelled sub-parser); image_hrefs (Props/C05d.lean): with the image rule as well (eleven of the twelve inline rules, tie "
+        "`inlinei`; the description of an image is parsed by a nested run of the whole inline parser and becomes the token's children) every "
+        "link_open carries an href and every image a src — first attribute in both cases — that is empty or URL-safe ASCII with no dangerous "
+        "scheme, for the tokens of the stream and of every image description nested in it to any depth (deep token predicate; same RefsOK "
+        "hypothesis). PARTIAL: for the reference block rule and linkify 'every href/src the parser stores went "
         "through normalizeLink+validateLink' is not a "
         "theorem (oracle on tokens and rendered attributes + advisory AST scan); the "
         "linkifier clause cannot be run (dependency absent). Tie: encode per code point and on %xx strings, "
@@ -226,10 +230,14 @@ CLAIMS: dict[str, tuple[str, str, str, str]] = {
         "contract (silent and normal calls; every memo entry points forward; the scope stack is restored): ten of the twelve inline rules, for "
         "every source, rule subset, maxNesting, reference table and external functions; the two loops the code runs without a progress test "
         "(tokenize, parseLinkLabel) provably move forward (tie: `inlinel`, 2k/50k strings, 70% of them with links). "
+        "image_total (Props/C01j.lean) adds the image rule, whose match runs the whole inline parser again on the description (a fresh state "
+        "at level 0, then the second chain) and stores the result as children — a third open recursion, tied with the same depth budget: "
+        "eleven of the twelve inline rules, everything the inline parser can run without the optional linkifier (tie: `inlinei`, 2.5k/60k "
+        "strings, two thirds of them with images, a third with several or nested ones). "
         "On the block side m_total (Props/C01h.lean) adds html_block (HTML_SEQUENCES translated from the live pattern objects) and lheading "
         "(setext scan with its terminator chain; the parentType it leaves behind on a miss is modelled): nine of the eleven block rules, any subset, "
         "either value of the html option (tie: `mblock`, 3k/80k documents). "
-        "MISSING: for the other rules (table, reference; image, linkify) the "
+        "MISSING: for the other rules (table, reference; linkify) the "
         "contracts stay hypotheses, monitored on every "
         "call of every real rule (harness/monitor.py, ~47k rule calls per quick run); renderer/CLI totality "
         "and the CPython stack limit by oracle (time-limited sweeps: random x configurations, bounded-exhaustive "
